@@ -69,9 +69,12 @@ FIELD_MAP = {
     ("MHD_Connection", "nextE"): "eready_links", ("MHD_Connection", "prevE"): "eready_links",
     ("MHD_Connection", "suspended"): "c_suspended",
     ("MHD_Connection", "thread_joined"): "c_thread_joined",
+    # the window of a callback response's shared data block (refilled by the content reader)
+    ("MHD_Response", "data_start"): "resp_block", ("MHD_Response", "data_size"): "resp_block",
 }
+EXTRA_FIELDS = ["resp_block_nocrc"]     # resp_block accessed under a `NULL == response->crc` guard (immutable buffer)
 FIELDS = []
-for _v in FIELD_MAP.values():
+for _v in list(FIELD_MAP.values()) + EXTRA_FIELDS:
     if _v not in FIELDS:
         FIELDS.append(_v)
 
@@ -133,16 +136,17 @@ def find_all(n, pred, out=None):
 # ------------------------------------------------------------------- flow state
 
 class St:
-    __slots__ = ("may", "must", "relMay", "relMust", "g", "dead", "guarded")
+    __slots__ = ("may", "must", "relMay", "relMust", "g", "dead", "guarded", "nocrc")
 
-    def __init__(self, may=(), must=(), relMay=(), relMust=(), g="any", dead=False, guarded=None):
+    def __init__(self, may=(), must=(), relMay=(), relMust=(), g="any", dead=False, guarded=None, nocrc=False):
+        self.nocrc = nocrc
         self.may, self.must = frozenset(may), frozenset(must)
         self.relMay, self.relMust = frozenset(relMay), frozenset(relMust)
         self.g, self.dead = g, dead
         self.guarded = dict(guarded or {})     # lock -> text of the condition it was taken under
 
     def copy(self):
-        return St(self.may, self.must, self.relMay, self.relMust, self.g, self.dead, self.guarded)
+        return St(self.may, self.must, self.relMay, self.relMust, self.g, self.dead, self.guarded, self.nocrc)
 
     def with_guard(self, g):
         s = self.copy()
@@ -168,7 +172,8 @@ def join(states):
         rmust = set(s.relMust) if rmust is None else rmust & s.relMust
         gs.add(s.g)
     return St(may, must, rmay, rmust, gs.pop() if len(gs) == 1 else "any",
-              guarded={k_: v_ for k_, v_ in gd.items() if k_ in may and k_ not in must})
+              guarded={k_: v_ for k_, v_ in gd.items() if k_ in may and k_ not in must},
+              nocrc=all(s.nocrc for s in live))
 
 
 class Summary:
@@ -260,6 +265,20 @@ class Walker:
                         return 1 if e["opcode"] == "!=" else -1
         return 0
 
+    def nocrc_cond(self, cond):
+        """the condition has a conjunct `NULL == <response>->crc`: the then-branch handles a response
+        without content reader (its data block is immutable)"""
+        c = strip(cond)
+        if c.get("kind") == "BinaryOperator" and c.get("opcode") == "&&":
+            return any(self.nocrc_cond(x) for x in c["inner"])
+        if c.get("kind") == "BinaryOperator" and c.get("opcode") == "==":
+            a, b = strip(c["inner"][0]), strip(c["inner"][1])
+            for x, y in ((a, b), (b, a)):
+                if y.get("kind") == "MemberExpr" and y.get("name") == "crc" and \
+                        x.get("kind") in ("IntegerLiteral", "GNUNullExpr", "CXXNullPtrLiteralExpr"):
+                    return True
+        return False
+
     def branch_guards(self, cond):
         """(guard for then-branch, guard for else-branch)"""
         c = strip(cond)
@@ -298,6 +317,8 @@ class Walker:
             tag = struct_tag(base.get("type", {}).get("qualType")) if base is not None else None
             fld = FIELD_MAP.get((tag, n.get("name")))
             if fld and not (tag == "MHD_IPCount" and not n.get("isArrow")):
+                if fld == "resp_block" and st.nocrc:
+                    fld = "resp_block_nocrc"
                 self.emit(st, n, kind="acc", field=fld, write=bool(write), member=n.get("name"))
             return st
         if k in ("BinaryOperator", "CompoundAssignOperator") and len(inner) == 2:
@@ -494,6 +515,8 @@ class Walker:
                 return st
             gt, gf = self.branch_guards(cond)
             st_t, st_f = st.with_guard(gt), st.with_guard(gf)
+            if self.nocrc_cond(cond):
+                st_t.nocrc = True
             rt = self.result_test(cond)
             if rt is not None:
                 sm = self.world.summary(rt[0])
@@ -530,6 +553,7 @@ class Walker:
                 for L in a.relMust - st.relMust:
                     if L not in st.may:
                         r.relMust = r.relMust | {L}
+            r.nocrc = st.nocrc if not r.dead else r.nocrc
             if len(live) == 2:
                 r.g = st.g              # both continue: the guard of the enclosing code
             elif len(live) == 1 and live[0].g == "any":
@@ -907,6 +931,85 @@ def certificates(world, keep):
     return names, ev, eMust, eMay, acq, edges, rank
 
 
+RESUME_FN = "resume_suspended_connections"
+
+
+def _mentions(n, ids):
+    return bool(find_all(n, lambda x: x.get("kind") == "DeclRefExpr" and x.get("referencedDecl", {}).get("id") in ids))
+
+
+def _assigned_vars(n):
+    out = set()
+    for b in find_all(n, lambda x: x.get("kind") in ("BinaryOperator", "CompoundAssignOperator") and
+                      (x.get("kind") == "CompoundAssignOperator" or x.get("opcode") == "=")):
+        lhs = strip(b["inner"][0])
+        while lhs.get("kind") in ("MemberExpr", "ArraySubscriptExpr", "UnaryOperator") and lhs.get("inner"):
+            lhs = strip(lhs["inner"][0])
+        if lhs.get("kind") == "DeclRefExpr":
+            out.add(lhs.get("referencedDecl", {}).get("id"))
+    for v in find_all(n, lambda x: x.get("kind") == "VarDecl" and x.get("inner")):
+        out.add(v.get("id"))
+    return out
+
+
+def resume_wait_sites(world, keep):
+    """For every call of resume_suspended_connections() in a function that afterwards blocks in
+    select/poll/epoll_wait: does the *result* of the call force the timeout of that wait to zero?
+    Data flow, kept cheap: the call sits in an `if` condition whose then-branch assigns 0 to a
+    variable; taint flows through assignments whose right side mentions a tainted variable and
+    through control dependence (variables assigned inside an `if` whose condition mentions a
+    tainted variable); the site `feeds` if a tainted variable reaches an argument of the wait."""
+    sites = []
+    for name in sorted(keep, key=lambda n: (FILES.index(world.defs[n].file), world.defs[n].line)):
+        fi = world.defs[name]
+        if not any(e["kind"] == "wait" for e in fi.events):
+            continue
+        body = next(c for c in fi.node["inner"] if c.get("kind") == "CompoundStmt")
+        is_call = lambda x: x.get("kind") == "CallExpr" and strip(x["inner"][0]).get("referencedDecl", {}).get("name") == RESUME_FN
+        calls = find_all(body, is_call)
+        if not calls:
+            continue
+        line_of = world.line_of(fi.file)
+        ifs = find_all(body, lambda x: x.get("kind") == "IfStmt")
+        for c in calls:
+            off = exp_offset(c.get("range", {}).get("begin")) or 0
+            host = [i for i in ifs if find_all(i["inner"][0], lambda x: x is c)]
+            feeds = False
+            if host:
+                h = host[-1]                      # innermost if whose condition contains the call
+                zero = set()
+                for b in find_all(h["inner"][1], lambda x: x.get("kind") == "BinaryOperator" and x.get("opcode") == "="):
+                    lhs, rhs = strip(b["inner"][0]), strip(b["inner"][1])
+                    if lhs.get("kind") == "DeclRefExpr" and rhs.get("kind") == "IntegerLiteral" and rhs.get("value") == "0":
+                        zero.add(lhs["referencedDecl"]["id"])
+                taint = set(zero)
+                hend = exp_offset(h.get("range", {}).get("end")) or 0
+
+                def walk(n):
+                    nonlocal feeds
+                    if not isinstance(n, dict):
+                        return
+                    k = n.get("kind")
+                    o = exp_offset((n.get("range") or {}).get("begin"))
+                    if k == "IfStmt" and n is not h and o is not None and o > hend and _mentions(n["inner"][0], taint):
+                        taint.update(_assigned_vars(n))
+                    if k in ("BinaryOperator", "CompoundAssignOperator") and (k == "CompoundAssignOperator" or n.get("opcode") == "=") \
+                            and o is not None and o > hend and _mentions(n["inner"][1], taint):
+                        taint.update(_assigned_vars(n))
+                    if k == "VarDecl" and o is not None and o > hend and any(isinstance(i, dict) and _mentions(i, taint) for i in n.get("inner") or []):
+                        taint.add(n.get("id"))
+                    if k == "CallExpr" and o is not None and o > hend:
+                        f = strip(n["inner"][0])
+                        if f.get("referencedDecl", {}).get("name") in WAIT_FUNCS and any(_mentions(a, taint) for a in n["inner"][1:]):
+                            feeds = True
+                    for ch in n.get("inner") or []:
+                        walk(ch)
+                if zero:
+                    walk(body)
+            sites.append((name, line_of(off), world.entry_guard.get(name, "any") == "tpcOnly", feeds))
+    return sites
+
+
 def lean_list(xs, f=str):
     return "[" + ", ".join(f(x) for x in xs) + "]"
 
@@ -981,13 +1084,22 @@ structure Entry where
     o.append(",\n".join(ents))
     o.append("]")
     o.append("")
+    sites = resume_wait_sites(world, keep)
+    o.append("/-- calls of resume_suspended_connections() from functions that afterwards block in select / poll /")
+    o.append("    epoll_wait: (function, line, function runs only in thread-per-connection mode, the result of the")
+    o.append("    call forces the timeout of that wait to zero — by data/control flow in the AST) -/")
+    o.append("def resumeWaitSites : List (String × Nat × Bool × Bool) := [")
+    o.append(",\n".join('  ("%s", %d, %s, %s)' % (a, b, "true" if c else "false", "true" if d else "false") for a, b, c, d in sites))
+    o.append("]")
+    o.append("")
     o.append("/-- certificate: a numbering of the locks that every lock-order edge of `table` must respect -/")
     o.append("def lockRank : Lock → Nat")
     for l in LOCKS:
         o.append("  | .%s => %d" % (l, rank[l]))
     o.append("")
     o.append("end Mhd.Gen.Locks")
-    info = dict(functions=len(names), events=sum(len(ev[n]) for n in names),
+    world.resume_sites = sites
+    info = dict(resume_wait_sites=["%s:%d tpcOnly=%s feeds=%s" % x for x in sites], functions=len(names), events=sum(len(ev[n]) for n in names),
                 edges=sorted("%s->%s" % e for e in edges), rank=rank)
     return "\n".join(o) + "\n", info, (names, ev, eMust, eMay, acq)
 
